@@ -518,7 +518,14 @@ func checkSchema(p *Program, r *RuleResult, keep func(*xmlStruct) bool, strictCa
 				if !spec.Any {
 					r.Violation("any|"+xs.Name.String(), fpos, fmt.Sprintf("%s accepts any child but <%s> has a fixed content model in %s", f.Label, xs.Name, spec.Src), nil)
 				}
-			case f.InnerXML, f.Comment:
+			case f.InnerXML:
+				// ,innerxml copies the field into the document verbatim, with
+				// no escaping: a '&' or '<' in the value makes the whole
+				// document malformed
+				r.Role("innerxml-field")
+				r.Ob(false)
+				r.Violation("innerxml|"+xs.Name.String(), fpos, fmt.Sprintf("%s is written with ,innerxml: the value is copied into the document unescaped, so a '&' or '<' in it makes the whole body malformed XML; use ,chardata", f.Label), nil)
+			case f.Comment:
 				// not used by the library today
 			default:
 				r.Role("child-element")
@@ -579,6 +586,19 @@ func checkSchema(p *Program, r *RuleResult, keep func(*xmlStruct) bool, strictCa
 					continue
 				}
 				seenChild[w] = true
+				// an element the RFC declares EMPTY carries its meaning by
+				// being there: a bool or string field reads the conformant
+				// empty form as false/"" and writes text into it
+				if why, isEmpty := rfcEmptyElements[w.Local]; isEmpty {
+					if _, isBasic := f.Type.Underlying().(*types.Basic); isBasic {
+						r.Role("empty-element")
+						r.Ob(false)
+						r.Violation("empty-as-value|"+xs.Name.String()+"|"+w.String(), fpos, fmt.Sprintf("%s maps the EMPTY element <%s> (%s) to the Go type %s: the conformant form <%s/> decodes to the zero value (the flag is lost) and a set value is written as text inside the element; presence must be the value (*struct{})", f.Label, w, why, f.Type.String(), w.Local), nil)
+						continue
+					}
+					r.Role("empty-element")
+					r.Ob(true)
+				}
 				c, ok := childSpec[w]
 				if spec.Any {
 					ok = true
@@ -740,4 +760,99 @@ func unsignedElementsRule(c *Ctx, pr *PropertyRun, prop string) {
 		}
 	}
 	r.RequireRole("numeric-element")
+}
+
+// rfcEmptyElements: elements declared EMPTY (by local name; the namespaces
+// that define them are CalDAV, CardDAV and DAV).
+var rfcEmptyElements = map[string]string{
+	"is-not-defined": "RFC 4791 §9.7.4 / RFC 6352 §10.5.3: <!ELEMENT is-not-defined EMPTY>",
+	"allprop":        "RFC 4918 §14.2 / RFC 4791 §9.6.2: EMPTY",
+	"propname":       "RFC 4918 §14.18: EMPTY",
+	"allcomp":        "RFC 4791 §9.6.3: EMPTY",
+}
+
+// addressableMarshalersRule: encoding/xml finds a pointer-receiver
+// MarshalText/MarshalXML/MarshalXMLAttr only on a value it can address. A wire
+// struct handed to the encoder BY VALUE inside an interface is not
+// addressable: such a marshaler of one of its (value-typed) fields is
+// silently skipped and the field is written empty, under status 200.
+func addressableMarshalersRule(c *Ctx, pr *PropertyRun, prop string) {
+	p := c.P
+	r := NewRule(prop, prop+".addressable-marshalers", "no wire struct with a value-typed field whose marshaler has a pointer receiver is converted to an interface by value: encoding/xml could not call the marshaler and would write the field empty (E6)")
+	pr.Rules = append(pr.Rules, r)
+	wire := map[*types.Named]bool{}
+	for _, xs := range p.wireStructs() {
+		wire[xs.Named] = true
+	}
+	ptrOnly := func(t types.Type) string {
+		n := namedOf(t)
+		if n == nil {
+			return ""
+		}
+		if _, isPtr := t.(*types.Pointer); isPtr {
+			return ""
+		}
+		for _, m := range []string{"MarshalText", "MarshalXML", "MarshalXMLAttr"} {
+			inPtr := p.Prog.MethodSets.MethodSet(types.NewPointer(n)).Lookup(nil, m) != nil
+			inVal := p.Prog.MethodSets.MethodSet(n).Lookup(nil, m) != nil
+			if inPtr && !inVal {
+				return n.Obj().Name() + "." + m
+			}
+		}
+		return ""
+	}
+	var offending func(t types.Type, depth int) string
+	offending = func(t types.Type, depth int) string {
+		if depth > 3 {
+			return ""
+		}
+		st, ok := t.Underlying().(*types.Struct)
+		if !ok {
+			return ""
+		}
+		for i := 0; i < st.NumFields(); i++ {
+			ft := st.Field(i).Type()
+			if st.Field(i).Name() == "XMLName" {
+				continue
+			}
+			if w := ptrOnly(ft); w != "" {
+				return st.Field(i).Name() + " (" + w + " has a pointer receiver)"
+			}
+			if _, isStruct := ft.Underlying().(*types.Struct); isStruct {
+				if _, isPtr := ft.(*types.Pointer); !isPtr {
+					if w := offending(ft, depth+1); w != "" {
+						return st.Field(i).Name() + "." + w
+					}
+				}
+			}
+		}
+		return ""
+	}
+	for _, fn := range p.ModFns {
+		if !inLib(fn) || len(fn.Blocks) == 0 {
+			continue
+		}
+		eachInstr(fn, func(_ *ssa.BasicBlock, in ssa.Instruction) {
+			mi, ok := in.(*ssa.MakeInterface)
+			if !ok {
+				return
+			}
+			n := namedOf(mi.X.Type())
+			if n == nil || !wire[n] {
+				return
+			}
+			if _, isPtr := mi.X.Type().Underlying().(*types.Pointer); isPtr {
+				return
+			}
+			r.Role("wire-struct-by-value")
+			w := offending(n, 0)
+			r.Ob(w == "")
+			if w != "" {
+				r.Violation("value-marshaler|"+fnKey(fn)+"|"+n.Obj().Name(), p.instrPos(mi), fmt.Sprintf("%s hands a %s to an interface by value; its field %s: encoding/xml cannot address the field of a value held in an interface, skips the marshaler and writes the element empty — pass a pointer", fnKey(fn), n.Obj().Name(), w), nil)
+			}
+		})
+	}
+	if p.Control {
+		r.ExpectControl("value-marshaler|internal.zzVerifControlByValue")
+	}
 }
